@@ -409,7 +409,14 @@ class Interp:
         d = {}
         for k, v in zip(n.keys, n.values):
             d[self.hashable(self.eval(k, env))] = self.eval(v, env)
-        return PyDict(d)
+        r = PyDict(d)
+        aty = self.V.c.ghost.get("assoc_dict_ty") if self.frame.qual == self.V.c.target else None
+        if not d and aty:
+            from .core import slist_of
+            from .types import parse_ty
+
+            r.assoc = slist_of(self.ctx, [], parse_ty(aty))
+        return r
 
     def hashable(self, v):
         if is_sym(v):
@@ -502,6 +509,12 @@ class Interp:
                     return list_replicate(self.ctx, seq, cnt, CHAR, is_str=True)
                 if isinstance(seq, PyList) and len(seq.items) == 1:
                     ety = ty_of(seq.items[0])
+                    nty = self.V.c.ghost.get("none_list_ty")
+                    if seq.items[0] is None and nty:
+                        from .types import parse_ty as _pt
+
+                        ety = _pt(nty)
+                        return list_replicate(self.ctx, SV(self.V.none_const(ety), ety), cnt, ety)
                     if ety is None:
                         raise Unsupported("replicate of untyped element")
                     return list_replicate(self.ctx, seq.items[0], cnt, ety)
@@ -801,6 +814,8 @@ class Interp:
                 return self.V.user_contains(self, c, item, node)
             i = z3.Int(self.ctx.fresh_name("i"))
             return SV(z3.Exists([i], z3.And(0 <= i, i < c.nz(), z3.Select(c.arr, i) == pack(self.ctx, item, c.ety))), BOOL)
+        if isinstance(c, SV) and isinstance(c.ty, Abs) and c.ty.key in self.V.abs_ops() and "contains" in self.V.abs_ops()[c.ty.key]:
+            return self.V.abs_ops()[c.ty.key]["contains"](self, c, item)
         if self.is_zstr(c) and (self.is_zstr(item) or isinstance(item, str)):
             return SV(z3.simplify(z3.Contains(c.t, pack(self.ctx, item, STR))), BOOL)
         if isinstance(c, Obj) and callable(c.fields.get("__contains__")):
@@ -903,6 +918,9 @@ class Interp:
         if isinstance(base, FuncRef) and base.node is None:
             return Opaque(f"{base.qual}[...]")
         if isinstance(base, SV) and isinstance(base.ty, Abs):
+            ops = self.V.abs_ops().get(base.ty.key, {})
+            if "index" in ops:
+                return ops["index"](self, base, idx, node)
             return self.V.abs_index(self, base, idx, node)
         raise Unsupported(f"subscript of {base!r}")
 
@@ -1019,7 +1037,14 @@ class Interp:
         first = self.eval(n.generators[0].iter, env)
         if isinstance(first, Opaque) or (isinstance(first, FuncRef) and first.node is None):
             return Opaque("comprehension over an unknown iterable")
-        if isinstance(first, SList) and not isinstance(first.n, int):
+        def _symbolic_len(x):
+            if isinstance(x, SList):
+                return not isinstance(x.n, int)
+            if isinstance(x, Iter):
+                return any(_symbolic_len(y) or isinstance(y, Opaque) for y in x.srcs)
+            return False
+
+        if _symbolic_len(first):
             # no contract for this comprehension: its value is unconstrained (sound over-approximation)
             return Opaque("comprehension over a list of unknown length")
 
@@ -1194,6 +1219,11 @@ class Interp:
                 if self.branch(self.py_eq(idx, k)):
                     base.d[k] = v
                     return
+            if not base.d and getattr(base, "assoc", None) is not None:
+                from .core import list_append
+
+                list_append(self.ctx, base.assoc, (idx, v))
+                return
             raise Unsupported("symbolic new key into concrete dict")
         raise Unsupported(f"item assignment on {base!r}")
 
